@@ -274,7 +274,41 @@ func runC07(w *World, r *Report) {
 			}
 		}
 		if msgObj == nil || errObj == nil || top == nil {
-			r.Fail(VUndecided, "result", pfi.Key, "", ppos, "the entry point is not a dispatch switch over named (message, error) results")
+			// another shape (helpers, tables): decide from the interpreter's return records — on every
+			// return that is not an error exit the message is definitely not nil
+			fs := w.Interpret(pfi, "decode")
+			bad, n := "", 0
+			if fs == nil || len(fs.Rets) == 0 {
+				bad = "the interpreter has no return records for the entry point"
+			} else {
+				for _, rt := range fs.Rets {
+					if rt.IsErr {
+						continue
+					}
+					n++
+					if len(rt.Vals) < 2 {
+						bad = "a return does not carry (message, error)"
+						break
+					}
+					switch v := rt.Vals[0].(type) {
+					case ObjV:
+					case AltV:
+						if v.MayNil {
+							bad = "at " + w.Pos(rt.Pos) + " the message may be nil while no error is returned"
+						}
+					default:
+						bad = "at " + w.Pos(rt.Pos) + " the message is " + rt.Vals[0].valString() + " while no error is returned"
+					}
+				}
+			}
+			switch {
+			case bad != "" && strings.HasPrefix(bad, "at "):
+				r.Fail(VViolation, "result", pfi.Key, "", ppos, bad+": the entry point can return (nil, nil), and the stream would deliver a nil message")
+			case bad != "":
+				r.Fail(VUndecided, "result", pfi.Key, "", ppos, bad)
+			default:
+				r.OK("result", pfi.Key, "", ppos, fmt.Sprintf("%d successful return paths, each with a non-nil message", n), true)
+			}
 		} else {
 			bad, n, hasDefault := 0, 0, false
 			for _, cc := range top.Body.List {
